@@ -276,6 +276,36 @@ macro_rules! with_e {
     };
 }
 
+/// How `receive_reply::<P, E>` reports `frame` when the same connection (and the same receiver types) has received the
+/// frames of `hist` before it: what a frame means does not depend on what the connection carried earlier.
+pub fn classify_after(p: &str, e: &str, hist: &[Vec<u8>], frame: &[u8]) -> String {
+    let net = new_net(vec![]);
+    {
+        let mut n = net.borrow_mut();
+        for h in hist {
+            n.avail.extend(h.iter().copied());
+            n.avail.push_back(0);
+        }
+        n.avail.extend(frame.iter().copied());
+        n.avail.push_back(0);
+        n.closed = true;
+    }
+    let mut conn = Connection::new(SSocket(net));
+    let mut last = String::new();
+    for _ in 0..=hist.len() {
+        last = match p {
+            "unit" => with_e!(conn, (), e),
+            "value" => with_e!(conn, serde_json::Value, e),
+            "P1" => with_e!(conn, P1, e),
+            "P2" => with_e!(conn, P2<'_>, e),
+            "P3" => with_e!(conn, P3, e),
+            "P4" => with_e!(conn, P4, e),
+            _ => panic!("unknown P"),
+        };
+    }
+    last
+}
+
 /// How `receive_reply::<P, E>` reports this frame.
 pub fn classify(p: &str, e: &str, frame: &[u8]) -> String {
     let mut conn = fresh(frame);
@@ -480,6 +510,10 @@ pub fn gen_reply(p: &PShape, e: &(String, Vec<Variant>), rng: &mut Rng) -> J {
             });
         }
     }
+    // a `continues` member next to an error (services that answer a `more` call with an error do send it)
+    if ms.iter().any(|(k, _)| k == "error") && !ms.iter().any(|(k, _)| k == "continues") && rng.chance(1, 4) {
+        ms.push(("continues".into(), J::Bool(rng.chance(1, 2))));
+    }
     if rng.chance(1, 6) {
         ms.push(("extra".into(), rand_any(rng, 1)));
     }
@@ -506,8 +540,21 @@ pub fn main_reply(o: &Opts) {
                     // every other case: the same document in a non-compact layout (white space around tokens,
                     // member names partly written as \u escapes) - what a frame *means* does not depend on it
                     let text = if r2.chance(1, 2) { j.text() } else { j.text_layout(&mut r2, true) };
-                    let c = classify(pn, en, text.as_bytes());
-                    vec![format!("reply P {ps} E {es} J {} L {} => {c}", j.sexpr(), hex(text.as_bytes()))]
+                    // every third case: the frame is the last of a history on one connection (continuing stream items,
+                    // earlier errors, other replies); its class must be what it is on a fresh connection
+                    let mut hist: Vec<Vec<u8>> = vec![];
+                    if r2.chance(1, 3) {
+                        for _ in 0..r2.range(1, 3) {
+                            hist.push(match r2.below(3) {
+                                0 => b"{\"continues\":true}".to_vec(),
+                                1 => b"{\"parameters\":{},\"continues\":true}".to_vec(),
+                                _ => gen_reply(&p, &e, &mut r2).text().into_bytes(),
+                            });
+                        }
+                    }
+                    let c = if hist.is_empty() { classify(pn, en, text.as_bytes()) } else { classify_after(pn, en, &hist, text.as_bytes()) };
+                    let l = std::iter::once(hex(text.as_bytes())).chain(hist.iter().map(|h| hex(h))).collect::<Vec<_>>().join("~");
+                    vec![format!("reply P {ps} E {es} J {} L {l} => {c}", j.sexpr())]
                 });
             }
         }
